@@ -105,6 +105,7 @@ int main(int argc, char **argv)
 			int cap = fcntl(0, F_GETPIPE_SZ);
 			if (cap <= 0)
 				cap = 65536;
+			int last = -1, still = 0;
 			for (;;) {
 				struct pollfd pfd = { .fd = 0, .events = 0 };
 				int r = poll(&pfd, 1, 1);
@@ -113,8 +114,22 @@ int main(int argc, char **argv)
 				if (r > 0 && (pfd.revents & (POLLHUP | POLLERR | POLLNVAL)))
 					break;
 				int avail = 0;
-				if (ioctl(0, FIONREAD, &avail) == 0 && avail >= cap)
+				if (ioctl(0, FIONREAD, &avail) != 0)
+					continue;
+				if (avail >= cap)
 					break;
+				/* A pipe holds 16 buffers; after short writes it is full
+				 * before `cap` bytes are in it. More than half a pipe of
+				 * data that has not grown for 500 polls (>= 0.5 s) means the
+				 * writer is blocked. Inputs smaller than half a pipe never
+				 * take this exit, so it cannot change their outcome. */
+				if (avail >= cap / 2 && avail == last) {
+					if (++still >= 500)
+						break;
+				} else {
+					still = 0;
+				}
+				last = avail;
 			}
 		}
 	}
